@@ -407,6 +407,9 @@ func (fg *FuncGen) call(v *ssa.Call, c *ssa.CallCommon, instr ssa.Instruction) {
 			fg.emit("(assert (forall ((r Int)) (! (=> (and (< r %s) (not (= r %s))) (= (select %s r) (select %s r))) :pattern ((select %s r)))))", wmBefore, ref, sym, before, sym)
 		} else {
 			fg.emit("(assert (forall ((r Int)) (! (=> (< r %s) (= (select %s r) (select %s r))) :pattern ((select %s r)))))", wmBefore, sym, before, sym)
+			if f == "Q_Val" {
+				fg.emit("(assert (forall ((s Slice) (i Int)) (! (=> (< (sref s) %s) (= (gat %s s i) (gat %s s i))) :pattern ((gat %s s i)))))", wmBefore, sym, before, sym)
+			}
 		}
 	}
 	rs := fg.declareResults(v, callee.Signature)
@@ -418,6 +421,7 @@ func (fg *FuncGen) call(v *ssa.Call, c *ssa.CallCommon, instr ssa.Instruction) {
 		env := fg.baseEnv(fg.st, pre)
 		env.wm0 = wmBefore
 		env.vars = bind
+		env.assume = true
 		for i, r := range rs {
 			env.vars[fmt.Sprintf("result%d", i)] = r
 			if len(rs) == 1 {
@@ -695,6 +699,9 @@ func (fg *FuncGen) appendOp(v *ssa.Call, c *ssa.CallCommon) {
 	ref := fg.alloc(v.Type())
 	sym := fg.havocFam(fg.st, f)
 	fg.emit("(assert (forall ((r Int)) (! (=> (not (= r %s)) (= (select %s r) (select %s r))) :pattern ((select %s r)))))", ref, sym, before, sym)
+	if es == "Val" {
+		fg.emit("(assert (forall ((s Slice) (i Int)) (! (=> (not (= (sref s) %s)) (= (gat %s s i) (gat %s s i))) :pattern ((gat %s s i)))))", ref, sym, before, sym)
+	}
 	r := fg.declare(v)
 	fg.emit("(assert (and (= (sref %s) %s) (= (soff %s) 0) (= (slen %s) (+ (slen %s) (slen %s))) (>= (scap %s) (slen %s))))", r.S, ref, r.S, r.S, s.S, t.S, r.S, r.S)
 	// the appended part: expand when the length is a literal
